@@ -10,21 +10,22 @@ import (
 
 // dialect-neutral view of a schema (one level of properties, one level of items/additionalProperties)
 type vhSchemaView struct {
-	ref      string // "#/components/schemas/X" or ""
-	typ      string
-	format   string
-	props    []string // property names in sorted order
-	propRefs []string
-	propTyps []string
-	required []string
-	allOf    []string // refs of embedded parts (after the first, inline part)
-	inlineOK bool     // allOf[0] is the inline object holding the own properties
-	enum     []string
-	itemsRef string
-	itemsTyp string
-	addlRef  string
-	addlTyp  string
-	isAllOf  bool
+	ref        string // "#/components/schemas/X" or ""
+	typ        string
+	format     string
+	props      []string // property names in sorted order
+	propRefs   []string
+	propTyps   []string
+	required   []string
+	allOf      []string // refs of embedded parts (after the first, inline part)
+	inlineOK   bool     // allOf[0] is the inline object holding the own properties
+	enum       []string
+	itemsRef   string
+	itemsTyp   string
+	addlRef    string
+	addlTyp    string
+	isAllOf    bool
+	deprecated bool
 }
 
 func vhSortStrings(xs []string) []string {
@@ -76,6 +77,7 @@ func vhView30(r *openapi3.SchemaRef) vhSchemaView {
 		}
 	}
 	v.typ, v.format = vhTyp30(own), own.Format
+	v.deprecated = s.Deprecated || own.Deprecated
 	var names []string
 	for name := range own.Properties {
 		names = append(names, name)
@@ -141,6 +143,7 @@ func vhView31(p *base.SchemaProxy) vhSchemaView {
 		}
 	}
 	v.typ, v.format = vhTyp31(own), own.Format
+	v.deprecated = (s.Deprecated != nil && *s.Deprecated) || (own.Deprecated != nil && *own.Deprecated)
 	if own.Properties != nil {
 		var names []string
 		for name := range own.Properties.KeysFromOldest() {
@@ -170,12 +173,12 @@ func vhView31(p *base.SchemaProxy) vhSchemaView {
 func vhSameView(a, b vhSchemaView) bool {
 	return a.ref == b.ref && a.typ == b.typ && a.format == b.format && vhSameStrings(a.props, b.props) && vhSameStrings(a.propRefs, b.propRefs) &&
 		vhSameStrings(a.propTyps, b.propTyps) && vhSameStrings(a.required, b.required) && vhSameStrings(a.allOf, b.allOf) && vhSameStrings(a.enum, b.enum) &&
-		a.itemsRef == b.itemsRef && a.itemsTyp == b.itemsTyp && a.addlRef == b.addlRef && a.addlTyp == b.addlTyp && a.isAllOf == b.isAllOf && a.inlineOK == b.inlineOK
+		a.itemsRef == b.itemsRef && a.itemsTyp == b.itemsTyp && a.addlRef == b.addlRef && a.addlTyp == b.addlTyp && a.isAllOf == b.isAllOf && a.inlineOK == b.inlineOK && a.deprecated == b.deprecated
 }
 
 // ---- symbolic models
 
-var vhFieldTypeNames = []string{"string", "int", "bool", "[]string", "map[string]int", "E", "A", "S1", "time.Time", "[]byte", "[]E"}
+var vhFieldTypeNames = []string{"string", "[]string", "E", "S1", "A", "map[string]int", "int", "bool", "time.Time", "[]byte", "[]E"}
 
 // expected (ref, type) of a property of the given Go type name
 func vhExpectedLeaf(t string) (string, string) {
@@ -226,7 +229,7 @@ func vhMakeStruct(tag, name string, maxFields int, nTypes int, maxRules int) (de
 				goTag += `"`
 			}
 			if maxRules <= 0 {
-				in.validate = []string{"", "required", "oneof=x y", "required,min=1", "enum=a|b", "max=x,required"}[symxChoice(t+".v", 6)]
+				in.validate = []string{"", "required", "oneof=x y", "max=x,required"}[symxChoice(t+".v", 4)]
 			} else {
 				in.validate = vhValidationString(t+".v", maxRules, 1, "1a", 14)
 			}
@@ -237,7 +240,11 @@ func vhMakeStruct(tag, name string, maxFields int, nTypes int, maxRules int) (de
 				goTag += `validate:"` + in.validate + `"`
 			}
 		}
-		st.Fields = append(st.Fields, definitions.FieldMetadata{Name: in.name, Type: in.typ, Tag: goTag, IsEmbedded: in.embedded})
+		fm := definitions.FieldMetadata{Name: in.name, Type: in.typ, Tag: goTag, IsEmbedded: in.embedded}
+		if symxBool(t + ".deprecated") {
+			fm.Deprecation = &definitions.DeprecationOptions{Deprecated: true}
+		}
+		st.Fields = append(st.Fields, fm)
 		ins = append(ins, in)
 	}
 	return st, ins
@@ -344,6 +351,7 @@ func vhC07(maxFields, nTypes, maxRules int) {
 	for _, f := range s0.Fields {
 		g := f
 		g.Tag = ""
+		g.Deprecation = nil
 		s0plain.Fields = append(s0plain.Fields, g)
 	}
 	modelsPlain := &definitions.Models{Structs: []definitions.StructMetadata{s0plain, s1}, Enums: models.Enums, Aliases: models.Aliases}
@@ -384,6 +392,7 @@ func vhC07(maxFields, nTypes, maxRules int) {
 		}
 		symxAssert(views["A"].typ == wantAlias && len(views["A"].enum) == 0, "C07."+ver+".alias-maps-to-primitive")
 		symxAssert(vhSameStrings(views["S1"].props, []string{"X"}), "C07."+ver+".other-struct-untouched")
+		symxAssert(!views["E"].deprecated && !views["A"].deprecated && !views["S1"].deprecated && !views["S0"].deprecated, "C07."+ver+".deprecation-is-the-declaration's")
 	}
 	// (iii) non-interference: E, A, S1 are the same whether or not S0 carries usage-site validators
 	for _, name := range []string{"A", "E", "S1"} {
@@ -404,5 +413,5 @@ func vhC07(maxFields, nTypes, maxRules int) {
 	}
 }
 
-func vh_C07_models_Q() { vhC07(2, 9, 0) }
+func vh_C07_models_Q() { vhC07(2, 6, 0) }
 func vh_C07_models_T() { vhC07(2, 11, 1) }
